@@ -378,6 +378,20 @@ pub fn run_inputs(opts: &Opts, only: Option<Vec<Vec<u8>>>) -> Run {
         inputs.push((bytes, format!("synthetic: {}", label), expected));
         run.stat("synthetic_valid", 1);
     }
+    // make sure the rare, expensive flavours are present in every run (far offsets / > 56 extra bits; repeat-after-RLE)
+    if !replaying {
+        for want in ["far offset", "repeat-after-RLE"] {
+            for _ in 0..2000 {
+                let (f, label) = synth::valid_frame(&mut rng);
+                if label.starts_with(want) {
+                    let (bytes, expected) = synth::serialize(&f, &[]);
+                    inputs.push((bytes, format!("synthetic: {}", label), expected));
+                    run.stat("synthetic_valid", 1);
+                    break;
+                }
+            }
+        }
+    }
     let n_host = if replaying { 0 } else if opts.thorough { 6000 } else { 240 };
     for _ in 0..n_host {
         let (bytes, label) = synth::hostile_frame(&mut rng);
@@ -428,7 +442,7 @@ pub fn run_inputs(opts: &Opts, only: Option<Vec<Vec<u8>>>) -> Run {
                 break;
             }
         };
-        let reference = gen::zstd_decode(bytes, None, 64 << 20);
+        let reference = gen::zstd_decode(bytes, None, 400 << 20);
         for o in &outs {
             run.oracle_checks += 1;
             if let Some(p) = &o.panic {
@@ -460,7 +474,9 @@ pub fn run_inputs(opts: &Opts, only: Option<Vec<Vec<u8>>>) -> Run {
             }
             // agreement with the referee on frames it accepts, and with the reference executor
             if let (Some(out), Some(r)) = (&o.output, &reference) {
-                if o.what != "loop UptoBytes(4096)+collect" && out != r {
+                // (the streaming and vec front ends of this engine cap what they collect; compare them on outputs below the caps)
+                let capped = (o.what.starts_with("StreamingDecoder") && r.len() >= (64 << 20)) || (o.what == "decode_from_to chunks" && r.len() >= (64 << 20));
+                if o.what != "loop UptoBytes(4096)+collect" && !capped && out != r {
                     run.fail("C01", "differs_from_libzstd", format!("[{}] {} produced {} bytes, libzstd {} bytes / different content", label, o.what, out.len(), r.len()), replay.clone());
                 }
             }
@@ -481,7 +497,8 @@ pub fn run_inputs(opts: &Opts, only: Option<Vec<Vec<u8>>>) -> Run {
                 }
             }
             if let (Some(out), Some(e)) = (&o.output, expected) {
-                if o.what != "loop UptoBytes(4096)+collect" && out != e {
+                let capped = (o.what.starts_with("StreamingDecoder") || o.what == "decode_from_to chunks") && e.len() >= (64 << 20);
+                if o.what != "loop UptoBytes(4096)+collect" && !capped && out != e {
                     run.fail("C01", "differs_from_reference_executor", format!("[{}] {} produced {} bytes, the synthetic frame encodes {} bytes", label, o.what, out.len(), e.len()), replay.clone());
                 }
             }
